@@ -14,7 +14,7 @@ META = dict(decided="products == textbook sums for all residues of the inner dim
             not_decided="(AB)^T=B^T A^T and A(B+C)=AB+AC as machine-checked statements (they follow on paper from the product postconditions), norms, covariance symmetric PSD, column statistics values, rounding-level agreement",
             trusted_base=["ring-mode polynomial identity lemma (DESIGN 3.4)"], assumptions=[])
 
-S = ["matrix.c", "vector.c", "memwrapper.c", "numeric.c"]
+S = ["matrix.c", "vector.c", "memwrapper.c", "numeric.c", "tensor.c"]
 
 def R(name, entry, d, clause, mode="ring", fns=(), tier="quick", cells=None):
     if cells:
@@ -49,6 +49,9 @@ def jobs(tier):
     for (m, n) in [(2, 3), (3, 1), (0, 2), (1, 4)]:
         J.extend(R("trace_transpose", "h_trace_transpose", {"VC_M": m, "VC_N": n}, "transpose, involution (data movement, IEEE); trace", mode="ieee" if n <= 1 else "ring",
                    fns=["MatrixTranspose", "MatrixTrace"]))
+    for (m, n) in ([(2, 2), (1, 3)] if tier == "quick" else [(2, 2), (1, 3), (3, 1), (2, 3)]):
+        J.extend(R("tensor_contractions", "h_tensor_contractions", {"VC_M": m, "VC_N": n}, "tensor-vector / vector-tensor / tensor-matrix contractions == their index definitions, added to the previous output",
+                   fns=["TransposedTensorDVectorProduct", "DvectorTensorDotProduct", "TensorMatrixDotProduct"], cells=[(k, i) for k in range(2) for i in range(max(m, n))]))
     for m in ([1, 2, 3, 4] if tier == "quick" else [1, 2, 3, 4, 5, 6]):   # 17 rows (tried, for a seeded size-dependent sort) did not finish in 300 s
         J.extend(R("sort", "h_sort", {"VC_M": m}, "MatrixSort / MatrixReverseSort: output rows are a permutation of the input rows ordered by the key column", mode="ieee",
                    fns=["MatrixSort", "MatrixReverseSort"]))
